@@ -2567,7 +2567,9 @@ static iwrc _jbl_target_apply_patch(struct jbl_node *target, const struct jbl_pa
     }
   } else { // Not a root
     if ((op == JBP_REMOVE) || (op == JBP_REPLACE)) {
-      _jbl_node_detach(target, ex->path);
+      if (!_jbl_node_detach(target, ex->path)) { // rfc6902 4.2, 4.3: the target location must exist
+        return JBL_ERROR_PATH_NOTFOUND;
+      }
     }
     if (op == JBP_REMOVE) {
       return 0;
